@@ -125,12 +125,13 @@ package rag
 // from, and stores its OWN copy of the section path (fresh: the caller keeps mutating its section stack).
 //@ func (*DocumentChunker) createTextChunk results (c)
 //@   property C12
+//@   flags recvreadonly
 //@   ensures index: c.Metadata.ChunkIndex == old(*chunkIndex) && *chunkIndex == old(*chunkIndex) + 1
 //@   ensures page: c.Metadata.PageStart == block.pageNum && c.Metadata.PageEnd == block.pageNum
 
 //@ func (*DocumentChunker) createHeadingChunk results (c)
 //@   property C12
-//@   flags noalias
+//@   flags noalias, recvreadonly
 //@   fresh SectionPath
 //@   ensures index: c.Metadata.ChunkIndex == old(*chunkIndex) && *chunkIndex == old(*chunkIndex) + 1
 //@   ensures page: c.Metadata.PageStart == pageNum && c.Metadata.PageEnd == pageNum
@@ -138,28 +139,28 @@ package rag
 
 //@ func (*DocumentChunker) createChunkFromHeading results (c)
 //@   property C12
-//@   flags noalias
+//@   flags noalias, recvreadonly
 //@   fresh SectionPath
 //@   ensures index: c.Metadata.ChunkIndex == old(*chunkIndex) && *chunkIndex == old(*chunkIndex) + 1
 //@   ensures page: c.Metadata.PageStart == pageNum && c.Metadata.PageEnd == pageNum
 
 //@ func (*DocumentChunker) createListChunk results (c)
 //@   property C12
-//@   flags noalias, nosafety
+//@   flags noalias, nosafety, recvreadonly
 //@   fresh SectionPath
 //@   ensures index: c.Metadata.ChunkIndex == old(*chunkIndex) && *chunkIndex == old(*chunkIndex) + 1
 //@   ensures page: c.Metadata.PageStart == pageNum && c.Metadata.PageEnd == pageNum
 
 //@ func (*DocumentChunker) createTableChunk results (c)
 //@   property C12
-//@   flags noalias
+//@   flags noalias, recvreadonly
 //@   fresh SectionPath
 //@   ensures index: c.Metadata.ChunkIndex == old(*chunkIndex) && *chunkIndex == old(*chunkIndex) + 1
 //@   ensures page: c.Metadata.PageStart == pageNum && c.Metadata.PageEnd == pageNum
 
 //@ func (*DocumentChunker) createImageChunk results (c)
 //@   property C12
-//@   flags noalias
+//@   flags noalias, recvreadonly
 //@   fresh SectionPath
 //@   ensures index: c.Metadata.ChunkIndex == old(*chunkIndex) && *chunkIndex == old(*chunkIndex) + 1
 //@   ensures page: c.Metadata.PageStart == pageNum && c.Metadata.PageEnd == pageNum
@@ -170,13 +171,42 @@ package rag
 //@   property C12
 //@   flags nosafety
 //@   ghost lv []int
-//@   requires len(lv) == len(*sectionPath) && newLevel >= 1
-//@   requires forall j int :: {lv[j]} 0 <= j && j < len(lv) ==> lv[j] >= 1 && (j + 1 < len(lv) ==> lv[j] < lv[j+1])
-//@   requires len(lv) > 0 ==> lv[len(lv)-1] == *currentLevel
-//@   requires len(lv) == 0 ==> *currentLevel == 0
+//@   let wf = len(lv) == len(*sectionPath) && newLevel >= 1 && (forall j int :: {lv[j]} 0 <= j && j < len(lv) ==> lv[j] >= 1 && (j + 1 < len(lv) ==> lv[j] < lv[j+1])) && (len(lv) > 0 ==> lv[len(lv)-1] == *currentLevel) && (len(lv) == 0 ==> *currentLevel == 0)
 //@   ensures level: *currentLevel == newLevel
-//@   ensures chain_no_skipped_levels: (forall j int :: {lv[j]} 0 <= j && j < len(lv) ==> lv[j] == j + 1) && newLevel <= len(lv) + 1 ==> len(*sectionPath) == newLevel && (forall j int :: {(*sectionPath)[j]} 0 <= j && j < newLevel - 1 ==> (*sectionPath)[j] == old(*sectionPath)[j])
-//@   ensures chain_any_levels: exists k int :: 0 <= k && k <= len(lv) && (forall j int :: {lv[j]} 0 <= j && j < k ==> lv[j] < newLevel) && (forall j int :: {lv[j]} k <= j && j < len(lv) ==> lv[j] >= newLevel) && len(*sectionPath) == k + 1 && (forall j int :: {(*sectionPath)[j]} 0 <= j && j < k ==> (*sectionPath)[j] == old(*sectionPath)[j])
+//@   ensures chain_no_skipped_levels: wf && (forall j int :: {lv[j]} 0 <= j && j < len(lv) ==> lv[j] == j + 1) && newLevel <= len(lv) + 1 ==> len(*sectionPath) == newLevel && (forall j int :: {(*sectionPath)[j]} 0 <= j && j < newLevel - 1 ==> (*sectionPath)[j] == old(*sectionPath)[j])
+//@   ensures chain_any_levels: wf ==> exists k int :: 0 <= k && k <= len(lv) && (forall j int :: {lv[j]} 0 <= j && j < k ==> lv[j] < newLevel) && (forall j int :: {lv[j]} k <= j && j < len(lv) ==> lv[j] >= newLevel) && len(*sectionPath) == k + 1 && (forall j int :: {(*sectionPath)[j]} 0 <= j && j < k ==> (*sectionPath)[j] == old(*sectionPath)[j])
 //@   loop 0:
-//@     invariant len(*sectionPath) <= len(old(*sectionPath)) && samebase(*sectionPath, old(*sectionPath)) && off(*sectionPath) == off(old(*sectionPath)) && ((forall j int :: {lv[j]} 0 <= j && j < len(lv) ==> lv[j] == j + 1) ==> len(*sectionPath) >= newLevel - 1)
+//@     invariant len(*sectionPath) <= len(old(*sectionPath)) && samebase(*sectionPath, old(*sectionPath)) && off(*sectionPath) == off(old(*sectionPath)) && (wf && (forall j int :: {lv[j]} 0 <= j && j < len(lv) ==> lv[j] == j + 1) ==> len(*sectionPath) >= newLevel - 1)
 //@     decreases len(*sectionPath)
+
+// consecutive indices: the chunks produced for one block take indices old..old+n-1 in order, all on the block's page
+//@ spec func consecutiveFrom(cs []*Chunk, start int, page int) bool = forall k int :: {cs[k]} 0 <= k && k < len(cs) ==> cs[k].Metadata.ChunkIndex == start + k
+//@ func (*DocumentChunker) textBlockToChunks results (res)
+//@   property C12
+//@   flags nosafety, recvreadonly
+//@   requires valid_size_config: dc.sizeConfig.Max.Value >= 0 && dc.sizeConfig.TokensPerChar > 0.0
+//@   ensures indices: *chunkIndex == old(*chunkIndex) + len(res) && forall k int :: {res[k]} 0 <= k && k < len(res) ==> res[k].Metadata.ChunkIndex == old(*chunkIndex) + k && res[k].Metadata.PageStart == block.pageNum && res[k].Metadata.PageEnd == block.pageNum
+//@   loop 0:
+//@     invariant *chunkIndex == old(*chunkIndex) + len(chunks) && forall k int :: {chunks[k]} 0 <= k && k < len(chunks) ==> chunks[k].Metadata.ChunkIndex == old(*chunkIndex) + k && chunks[k].Metadata.PageStart == block.pageNum && chunks[k].Metadata.PageEnd == block.pageNum
+
+// one page: consecutive indices in document order, every chunk reports this page
+//@ func (*DocumentChunker) chunkPage results (res)
+//@   property C12
+//@   flags nosafety, recvreadonly
+//@   requires valid_size_config: dc.sizeConfig.Max.Value >= 0 && dc.sizeConfig.TokensPerChar > 0.0
+//@   ensures indices: *chunkIndex == old(*chunkIndex) + len(res) && forall k int :: {res[k]} 0 <= k && k < len(res) ==> res[k].Metadata.ChunkIndex == old(*chunkIndex) + k
+//@   ensures pages: !isnil(page) ==> forall k int :: {res[k]} 0 <= k && k < len(res) ==> res[k].Metadata.PageStart == page.Number && res[k].Metadata.PageEnd == page.Number
+//@   loop 0:
+//@     invariant currentBlock.pageNum == page.Number && *chunkIndex == old(*chunkIndex) + len(chunks)
+//@     invariant forall k int :: {chunks[k]} 0 <= k && k < len(chunks) ==> chunks[k].Metadata.ChunkIndex == old(*chunkIndex) + k && chunks[k].Metadata.PageStart == page.Number && chunks[k].Metadata.PageEnd == page.Number
+
+// whole document: indices are 0..n-1 in order and every chunk reports n as the total
+//@ func (*DocumentChunker) ChunkDocument results (res)
+//@   property C12
+//@   flags nosafety, recvreadonly
+//@   requires valid_size_config: dc.sizeConfig.Max.Value >= 0 && dc.sizeConfig.TokensPerChar > 0.0
+//@   ensures indices: !isnil(doc) ==> forall k int :: {res.Chunks[k]} 0 <= k && k < len(res.Chunks) ==> res.Chunks[k].Metadata.ChunkIndex == k && res.Chunks[k].Metadata.TotalChunks == len(res.Chunks)
+//@   loop 0:
+//@     invariant chunkIndex == len(chunks) && forall k int :: {chunks[k]} 0 <= k && k < len(chunks) ==> chunks[k].Metadata.ChunkIndex == k
+//@   loop 1:
+//@     invariant len(chunks) == entry(len(chunks)) && forall k int :: {chunks[k]} 0 <= k && k < len(chunks) ==> chunks[k].Metadata.ChunkIndex == k && (k < $i ==> chunks[k].Metadata.TotalChunks == len(chunks))
